@@ -10,6 +10,7 @@ import GstVerif.Calc.Driver
 import GstVerif.NF.Driver
 import GstVerif.Cow.Driver
 import GstVerif.Cov.Driver
+import GstVerif.Trans.Driver
 /-
   gstmodel: line-protocol driver.  One request per input line:
       <model> <op> <args…> => <implementation's answer…>
@@ -27,7 +28,7 @@ implementation: never a legal answer of the numerical operations of the models b
 def nonFinite (t : String) : Bool :=
   (t.splitOn ",").any fun x => x = "nan" || x = "+inf" || x = "-inf"
 
-def numericModels : List String := ["g", "p", "m", "k", "r", "n", "v", "s"]
+def numericModels : List String := ["g", "p", "m", "k", "r", "n", "v", "s", "t"]
 
 def dispatch0 (req impl : List String) : String :=
   match req with
@@ -43,6 +44,7 @@ def dispatch0 (req impl : List String) : String :=
   | "f" :: args => NF.handle args impl
   | "o" :: args => Cow.handle args impl
   | "s" :: args => Cov.handle args impl
+  | "t" :: args => Trans.handle args impl
   | _ => "bad-op"
 
 /-- a request of a numerical model which its handler cannot parse because the implementation
